@@ -12,6 +12,7 @@ import (
 	"strings"
 
 	"github.com/btcsuite/btcd/blockchain"
+	"github.com/btcsuite/btcd/btcutil/v2"
 	"github.com/btcsuite/btcd/chaincfg/v2"
 	"github.com/btcsuite/btcd/chainhash/v2"
 
@@ -92,6 +93,8 @@ type replayer struct {
 	st       replayStats
 	findings []finding
 	csvDep   int // 1-based deployment on the CSV slot, 0 if none
+	swDep    int // ... on the segwit slot
+	trDep    int // ... on the taproot slot
 	desc     []string
 }
 
@@ -183,35 +186,64 @@ func (r *replayer) versionNode(via string, n *node) {
 	r.checkVersion(via+"/calcNextBlockVersion", n, v, err)
 }
 
-// gate probes: the rules of the CSV package must bind the block after n
-// exactly when the property layer says the deployment is Active there.
-func (r *replayer) checkGate(kind, via string, n *node, err error) {
+// A gate probe is a block that breaks exactly one rule gated on a deployment:
+// it must be accepted while the property layer says the deployment is not
+// Active for the block after n (Gate(n) of the specification) and refused
+// with the rule's own error class from the first Active block on.
+type gateProbe struct {
+	kind    string
+	dep     int    // deployment (1-based) whose state gates the rule
+	refused string // verdict class once the rule binds
+	connect bool   // rule checked when the block is connected (tip only)
+	build   func(*node) *btcutil.Block
+}
+
+// probesFor lists the probes applicable to a child of n.
+func (r *replayer) probesFor(n *node) []gateProbe {
+	var ps []gateProbe
+	if r.csvDep != 0 {
+		ps = append(ps, gateProbe{"bip113", r.csvDep, vUnfinal, false, r.rc.probe113})
+		if n.height >= 1 {
+			ps = append(ps, gateProbe{"bip68", r.csvDep, vUnfinal, true, r.rc.probe68},
+				gateProbe{"bip112", r.csvDep, vScript, true, r.rc.probe112})
+		}
+	}
+	if r.swDep != 0 {
+		ps = append(ps, gateProbe{"witness-commitment", r.swDep, vCommit, false, r.rc.probeCommit})
+		if n.height >= 1 {
+			ps = append(ps, gateProbe{"segwit-v0-spend", r.swDep, vScript, true, r.rc.probeV0})
+		}
+	}
+	// the taproot rules take the segwit rules: probed only when the segwit
+	// slot holds the filler that is active from block 1 on
+	if r.trDep != 0 && r.swDep == 0 && n.height >= 1 {
+		ps = append(ps, gateProbe{"taproot-v1-spend", r.trDep, vScript, true, r.rc.probeV1})
+	}
+	return ps
+}
+
+func (r *replayer) checkGate(p gateProbe, via string, n *node, err error) {
 	r.st.evals++
 	r.st.probes++
 	got := classify(err)
 	want := vAccepted
-	if contains(n.exp.Gate, r.csvDep) {
-		want = vUnfinal
-		if kind == "bip112" {
-			want = vScript
-		}
+	if contains(n.exp.Gate, p.dep) {
+		want = p.refused
 	}
-	r.st.distinct[fmt.Sprintf("gate:%s:%s:%s:h%%w=%d", kind, via, want, int(n.height+1)%r.mc.W)] = true
+	r.st.distinct[fmt.Sprintf("gate:%s:%s:%s:h%%w=%d", p.kind, via, want, int(n.height+1)%r.mc.W)] = true
 	if got != want {
-		r.fail(fmt.Sprintf("gate:%s:want-%s:got-%s", kind, want, strings.SplitN(got, ":", 2)[0]),
-			fmt.Sprintf("%s via %s: block after node %d (height %d) violating %s is %s; the deployment state there is %s so it must be %s",
-				kind, via, n.id, n.height, kind, got, n.exp.St[r.csvDep-1], want))
+		r.fail(fmt.Sprintf("gate:%s:want-%s:got-%s", p.kind, want, strings.SplitN(got, ":", 2)[0]),
+			fmt.Sprintf("%s via %s: block after node %d (height %d) violating %s is %s; the state of deployment %d (slot %d) there is %s so it must be %s",
+				p.kind, via, n.id, n.height, p.kind, got, p.dep, r.rc.slot[p.dep-1], n.exp.St[p.dep-1], want))
 	}
 }
 
 func (r *replayer) templateProbes(n *node) {
-	if r.csvDep == 0 || r.rc.tip() != n {
+	if r.rc.tip() != n {
 		return
 	}
-	r.checkGate("bip113", "CheckConnectBlockTemplate", n, r.rc.chain.CheckConnectBlockTemplate(r.rc.probe113(n)))
-	if n.height >= 1 {
-		r.checkGate("bip68", "CheckConnectBlockTemplate", n, r.rc.chain.CheckConnectBlockTemplate(r.rc.probe68(n)))
-		r.checkGate("bip112", "CheckConnectBlockTemplate", n, r.rc.chain.CheckConnectBlockTemplate(r.rc.probe112(n)))
+	for _, p := range r.probesFor(n) {
+		r.checkGate(p, "CheckConnectBlockTemplate", n, r.rc.chain.CheckConnectBlockTemplate(p.build(n)))
 	}
 }
 
@@ -268,20 +300,22 @@ func (r *replayer) cacheDrift(specCache tla.Value) {
 
 // processProbes delivers rule-violating children through ProcessBlock.
 func (r *replayer) processProbes() {
-	if r.csvDep == 0 {
-		return
-	}
-	if t := r.rc.tip(); t != nil && t.height >= 1 {
-		// (a refused block leaves the tip where it is; an accepted one moves
-		// it, so only one of the two connect-time probes is delivered)
-		if r.rng.Intn(2) == 0 {
-			_, _, err := r.rc.chain.ProcessBlock(r.rc.probe68(t), blockchain.BFNone)
-			r.checkGate("bip68", "ProcessBlock", t, err)
-		} else {
-			_, _, err := r.rc.chain.ProcessBlock(r.rc.probe112(t), blockchain.BFNone)
-			r.checkGate("bip112", "ProcessBlock", t, err)
+	if t := r.rc.tip(); t != nil {
+		// connect-time rules: a refused block leaves the tip where it is, an
+		// accepted one moves it, so one of them (picked at random) is delivered
+		var cs []gateProbe
+		for _, p := range r.probesFor(t) {
+			if p.connect {
+				cs = append(cs, p)
+			}
+		}
+		if len(cs) > 0 {
+			p := cs[r.rng.Intn(len(cs))]
+			_, _, err := r.rc.chain.ProcessBlock(p.build(t), blockchain.BFNone)
+			r.checkGate(p, "ProcessBlock", t, err)
 		}
 	}
+	// context rules are checked on every branch
 	ids := make([]int, 0, len(r.rc.nodes))
 	for id := range r.rc.nodes {
 		ids = append(ids, id)
@@ -290,8 +324,13 @@ func (r *replayer) processProbes() {
 	r.rng.Shuffle(len(ids), func(i, j int) { ids[i], ids[j] = ids[j], ids[i] })
 	for _, id := range ids {
 		n := r.rc.nodes[id]
-		_, _, err := r.rc.chain.ProcessBlock(r.rc.probe113(n), blockchain.BFNone)
-		r.checkGate("bip113", "ProcessBlock", n, err)
+		for _, p := range r.probesFor(n) {
+			if p.connect {
+				continue
+			}
+			_, _, err := r.rc.chain.ProcessBlock(p.build(n), blockchain.BFNone)
+			r.checkGate(p, "ProcessBlock", n, err)
+		}
 	}
 }
 
@@ -327,8 +366,13 @@ func (r *replayer) run(states []tla.State) error {
 			}
 			r.rc = rc
 			for i, sl := range rc.slot {
-				if sl == chaincfg.DeploymentCSV {
+				switch sl {
+				case chaincfg.DeploymentCSV:
 					r.csvDep = i + 1
+				case chaincfg.DeploymentSegwit:
+					r.swDep = i + 1
+				case chaincfg.DeploymentTaproot:
+					r.trDep = i + 1
 				}
 			}
 			rc.nodes[0].exp = parseOracle(last.F("exp"))
@@ -353,7 +397,7 @@ func (r *replayer) run(states []tla.State) error {
 			if after == n && before != nil && before.id != n.parent {
 				r.st.reorgs++
 			}
-			if after == n && r.rng.Intn(3) == 0 {
+			if after == n && r.rng.Intn(2) == 0 {
 				r.templateProbes(n)
 			}
 		case "query":
